@@ -7,8 +7,8 @@ Direct oracle (never consults the model), on random histories of a real `UnitReg
     string, by alias, by `reg[...]`, and after a JSON or pickle round trip;
   * differs-from-fresh: every probe name must be read as a registry that received only the edits and round
     trips of the history (no look-ups) reads it.
-Correspondence: the same history through `NamesHist.run` (opcode `c14.hist`), answer by answer, and the
-final `_derived_symbols`.
+Correspondence: the same history through `NamesHist.runS` (opcode `c14.hist`: string cache, look-up with
+write-back, edits, reloads), answer by answer, and the final `_derived_symbols`.
 """
 import core
 
@@ -319,7 +319,7 @@ def run(chk, model, tier, rng, names, reader):
         # ---- correspondence (collected; asked in one session below)
         outs = []
         try:
-            reg, _user = W.run(start, ops, outs, nocache=True)
+            reg, _user = W.run(start, ops, outs)
         except Exception as e:  # noqa: BLE001
             chk.disagree("history-run", repr(e)[:300])
             continue
